@@ -108,6 +108,15 @@ def run_case(case, res):
                     bad.append(f"[{label}] count {t2.count}/{t2.count_unique} vs {t.count}/{t.count_unique}")
                 if fmeta.get("foo") != "bar" or fmeta.get("n") != 1 or "$generator" not in fmeta or not fmeta.get("$format_version"):
                     bad.append(f"[{label}] file meta not handed back: {fmeta}")
+                # the handed-back header names the maps the file was written with
+                eff_km = (getattr(type(t), "DEFAULT_KEY_MAP", {}) if km is True else {} if km is False else km_before)
+                if eff_km and fmeta.get("$key_map") != eff_km:
+                    bad.append(f"[{label}] file_meta['$key_map'] is {fmeta.get('$key_map')!r}, the file was written with {eff_km!r}")
+                if isinstance(vm_before, dict) and vm_before and not isinstance(fmeta.get("$value_map"), dict):
+                    bad.append(f"[{label}] file_meta lacks the '$value_map' the file was written with")
+                # the caller's option objects are inputs: save() does not write into them
+                if km != km_before or vm != vm_before:
+                    bad.append(f"[{label}] save() modified the caller's key_map / value_map object: {km!r} / {vm!r}")
                 if sergen.shape(t) != src:
                     bad.append(f"[{label}] save() changed the source tree")
                 if user_meta != meta_before:
